@@ -373,7 +373,7 @@ def judge(trace_module, mod_json, scns, events, constants=("Mod <- TheMod",), in
                 seen = set()
                 for m in tlc_payload(out, "MISMATCH"):
                     m["id"] = back[m["id"]]
-                    key = (m["id"], m["i"], m["reason"])
+                    key = (m["id"], m["i"], json.dumps(m.get("reasons")))
                     if key not in seen:
                         seen.add(key)
                         mism.append(m)
@@ -391,7 +391,7 @@ def load_findings(prop):
     p = os.path.join(VERIF, "known_findings.json")
     if not os.path.exists(p):
         return []
-    return [f for f in json.load(open(p))["findings"] if f["property"] == prop and f["status"] == "open"]
+    return [f for f in json.load(open(p))["findings"] if prop in f["properties"] and f["status"] == "open"]
 
 
 def finding_matches(f, sig):
